@@ -7,6 +7,7 @@ import (
 	"errors"
 	"io"
 	"os"
+	"runtime"
 	"sync"
 	"sync/atomic"
 )
@@ -83,6 +84,10 @@ type Pipe struct {
 	failWriteAt int
 	writeOps    int
 	broken      bool // a write was refused: the stream is dead for its reader too
+	lateFail    func()
+	// SlowRead makes every Read call yield the processor that many times first: a consumer that is the slowest
+	// stage of the pipeline.
+	SlowRead int
 
 	overlap atomic.Int32 // concurrent Write calls observed (framing monitor)
 	Overlap atomic.Int32 // maximum seen
@@ -108,6 +113,28 @@ func (p *Pipe) FailWritesFrom(n int) {
 	p.mu.Unlock()
 }
 
+// FailWriteLate makes the n-th (0-based) Write call deliver its bytes, then call gate (which may block), then
+// report an error; all later Write calls fail at once.
+func (p *Pipe) FailWriteLate(n int, gate func()) {
+	p.mu.Lock()
+	p.failWriteAt, p.lateFail = n, gate
+	p.mu.Unlock()
+}
+
+// WaitDelivered blocks until n bytes of the stream have been handed to the reader, or the stream has ended or
+// reached its fault; it reports whether n bytes were delivered.
+func (p *Pipe) WaitDelivered(n int64) bool {
+	p.mu.Lock()
+	defer p.mu.Unlock()
+	for p.delivered < n {
+		if p.wclosed || p.rclosed || p.faultReachedLocked() {
+			return false
+		}
+		p.cond.Wait()
+	}
+	return true
+}
+
 func (p *Pipe) Write(b []byte) (int, error) {
 	if c := p.overlap.Add(1); c > p.Overlap.Load() {
 		p.Overlap.Store(c)
@@ -118,6 +145,18 @@ func (p *Pipe) Write(b []byte) (int, error) {
 	op := p.writeOps
 	p.writeOps++
 	if p.failWriteAt >= 0 && op >= p.failWriteAt {
+		if p.lateFail != nil && op == p.failWriteAt && !p.rclosed && !p.wclosed {
+			// the bytes do reach the peer, the call takes its time and then reports an error (what a write on a
+			// connection that dies under it can do)
+			p.events = append(p.events, TapEvent{Seq: Seq.Add(1), Start: int64(len(p.tap)), Len: len(b)})
+			p.tap = append(p.tap, b...)
+			p.buf = append(p.buf, b...)
+			p.cond.Broadcast()
+			gate := p.lateFail
+			p.mu.Unlock()
+			gate()
+			p.mu.Lock()
+		}
 		p.broken = true
 		p.cond.Broadcast()
 		return 0, ErrInjectedWrite
@@ -149,6 +188,9 @@ func (p *Pipe) faultReachedLocked() bool {
 func (p *Pipe) Read(b []byte) (int, error) {
 	if len(b) == 0 {
 		return 0, nil
+	}
+	for i := 0; i < p.SlowRead; i++ {
+		runtime.Gosched()
 	}
 	p.mu.Lock()
 	defer p.mu.Unlock()
